@@ -63,6 +63,14 @@ func (dtlsrb *DTLSRBlock) BlockTypeName() string {
 }
 
 func (dtlsrb *DTLSRBlock) CheckValid() error {
+	if err := dtlsrb.ID.CheckValid(); err != nil {
+		return err
+	}
+	for peerID := range dtlsrb.Peers {
+		if err := peerID.CheckValid(); err != nil {
+			return err
+		}
+	}
 	return nil
 }
 
